@@ -690,6 +690,103 @@ def mapF (g : Fn) : Fn
     | some items => (items.mapM fun it => g (it :: extra)).map .seq
   | _ => Option.none
 
+/-! ### filters that only select / reorder their inputs (exact on lists of strings) -/
+
+def codes (s : TStr) : List Nat := s.map (·.c.toNat)
+
+/-- lexicographic `<` on code points (= byte order of UTF-8, the order of `str`) -/
+def ltCodes : List Nat → List Nat → Bool
+  | [], [] => false
+  | [], _ :: _ => true
+  | _ :: _, [] => false
+  | a :: as, b :: bs => a < b || (a == b && ltCodes as bs)
+
+def strOf : V → Option TStr
+  | .str s _ => some s
+  | _ => Option.none
+
+/-- sort key of a string: case-insensitive by default (`cmp_helper`) -/
+def sortKey (cs : Bool) (v : V) : List Nat :=
+  match v with
+  | .str s _ => if cs then codes s else codes (mapChars lowerC s)
+  | _ => []
+
+/-- stable insertion sort by `sortKey` (`x` stood before everything in the list: it goes in front
+    of the first element that is not smaller) -/
+def insertBy (cs : Bool) (x : V) : List V → List V
+  | [] => [x]
+  | y :: ys => if ltCodes (sortKey cs y) (sortKey cs x) then y :: insertBy cs x ys else x :: y :: ys
+
+def sortVs (cs : Bool) (xs : List V) : List V := xs.foldr (fun x acc => insertBy cs x acc) []
+
+/-- `sort(case_sensitive=cs, reverse=rev)` on a list of strings -/
+def sortF (cs rev : Bool) : Fn
+  | [.seq xs] => if xs.all isStr then some (.seq (if rev then (sortVs cs xs.reverse).reverse else sortVs cs xs)) else Option.none
+  | _ => Option.none
+
+/-- the first minimal element (`Iterator::min` keeps the first of equal elements) -/
+def minVs : List V → Option V
+  | [] => Option.none
+  | x :: xs => match minVs xs with
+    | Option.none => some x
+    | some m => if ltCodes (sortKey true m) (sortKey true x) then some m else some x
+
+/-- the last maximal element (`Iterator::max` keeps the last of equal elements) -/
+def maxVs : List V → Option V
+  | [] => Option.none
+  | x :: xs => match maxVs xs with
+    | Option.none => some x
+    | some m => if ltCodes (sortKey true m) (sortKey true x) then some x else some m
+
+def minF : Fn
+  | [.seq xs] => if xs.all isStr then some ((minVs xs).getD .undef) else Option.none
+  | _ => Option.none
+def maxF : Fn
+  | [.seq xs] => if xs.all isStr then some ((maxVs xs).getD .undef) else Option.none
+  | _ => Option.none
+
+/-- `select` / `reject` without a test -/
+def selectF (invert : Bool) : Fn
+  | [.seq xs] => some (.seq (xs.filter fun x => truthy x != invert))
+  | _ => Option.none
+
+def chunks : Nat → Nat → List V → List (List V)
+  | 0, _, _ => []
+  | fuel + 1, n, xs => if xs.isEmpty then [] else xs.take n :: chunks fuel n (xs.drop n)
+
+/-- `batch(n, fill_with?)` -/
+def batchF (n : Nat) : Fn := fun args =>
+  let go (xs : List V) (fill : Option V) : Option V :=
+    if n = 0 then Option.none else
+      let cs := chunks xs.length n xs
+      let cs := match fill, cs.reverse with
+        | some f, last :: rest => (((last ++ List.replicate (n - last.length) f) :: rest).reverse)
+        | _, _ => cs
+      some (.seq (cs.map .seq))
+  match args with
+  | [.seq xs] => go xs Option.none
+  | [.seq xs, .undef] => go xs Option.none
+  | [.seq xs, .none] => go xs Option.none
+  | [.seq xs, f] => go xs (some f)
+  | _ => Option.none
+
+/-- `unique(case_sensitive=true)` on strings: first occurrences -/
+def uniqGo : List (List Nat) → List V → List V
+  | _, [] => []
+  | seen, x :: xs => if seen.contains (sortKey true x) then uniqGo seen xs else x :: uniqGo (sortKey true x :: seen) xs
+
+def uniqueF : Fn
+  | [.seq xs] => if xs.all isStr then some (.seq (uniqGo [] xs)) else Option.none
+  | _ => Option.none
+
+/-- `attr(key)` with the key as argument -/
+def attrArgF : Fn
+  | [v, .str k _] => attrF (text k) [v]
+  | _ => Option.none
+
+/-- `dictsort` (keys of the model are sorted; ASCII lower-case keys compare the same without case) -/
+def dictsortF : Fn := itemsF
+
 /-- `trim(value, chars?)` -/
 def trimF : Fn
   | [v] => preserveF (trimBy isWs) [v]
@@ -706,6 +803,51 @@ def splitF (left : Nat) : Fn
   | [v, sep] =>
     let sp := (StrIn.ofV sep).s
     if sp.isEmpty then Option.none else piecesF (splitGo sp left 0 []) [v]
+  | _ => Option.none
+
+/-! ### `minijinja-contrib` pycompat methods (`unknown_method_callback`): everything returns an
+unmarked value except `capitalize` (the `capitalize` filter) and `split` (the `split` filter) -/
+
+/-- `strip` / `lstrip` / `rstrip` (`side` 0 / 1 / 2) -/
+def stripSide (side : Nat) (p : Char → Bool) (s : TStr) : TStr :=
+  if side = 1 then s.dropWhile (fun ch => p ch.c)
+  else if side = 2 then (s.reverse.dropWhile (fun ch => p ch.c)).reverse
+  else trimBy p s
+
+def strStripF (side : Nat) : Fn
+  | [.str s _] => some (.str (stripSide side isWs s) false)
+  | [.str s _, .none] => some (.str (stripSide side isWs s) false)
+  | [.str s _, .str cs _] => some (.str (stripSide side (fun x => contains cs x) s) false)
+  | _ => Option.none
+
+def strMapF (g : TStr → TStr) : Fn
+  | [.str s _] => some (.str (g s) false)
+  | _ => Option.none
+
+def strReplaceF : Fn
+  | [.str s _, .str o _, .str n _] => some (.str (replaceAll s o n) false)
+  | _ => Option.none
+
+def strJoinF : Fn
+  | [.str s _, v] => (iterItems v).map fun items => .str (joinPlain items s) false
+  | _ => Option.none
+
+def strSplitlinesF : Fn
+  | [.str s _] => some (.seq ((linesOf s).map fun l => .str l false))
+  | _ => Option.none
+
+def dictValuesF : Fn
+  | [.map kvs] => some (.seq (kvs.map (·.2)))
+  | _ => Option.none
+
+/-- an `Option<Value>` argument: undefined and none both mean "not given" -/
+def optArg : V → V
+  | .undef => .none
+  | v => v
+
+def dictGetF : Fn
+  | [.map kvs, .str k _] => some ((kvs.lookup (text k)).getD .none)
+  | [.map kvs, .str k _, d] => some ((kvs.lookup (text k)).getD (optArg d))
   | _ => Option.none
 
 def headDisplay : List V → TStr
@@ -743,6 +885,31 @@ def lookupBase (name : String) (m : Mode) (ps : List Nat) : Option (Fn × Bool) 
   | "default" => some (defaultF (ps.headD 0 != 0), true)
   | "string" => some (stringF, true)
   | "length" => some (lengthF, true)
+  | "items" => some (itemsF, true)
+  | "sort" => some (sortF (ps.headD 0 != 0) (ps.getD 1 0 != 0), true)
+  | "min" => some (minF, true)
+  | "max" => some (maxF, true)
+  | "select" => some (selectF false, true)
+  | "reject" => some (selectF true, true)
+  | "batch" => some (batchF (ps.headD 1), true)
+  | "unique" => some (uniqueF, true)
+  | "attr" => some (attrArgF, true)
+  | "dictsort" => some (dictsortF, true)
+  | "str.upper" => some (strMapF (mapChars upperC), true)
+  | "str.lower" => some (strMapF (mapChars lowerC), true)
+  | "str.title" => some (strMapF (titleGo true), true)
+  | "str.strip" => some (strStripF 0, true)
+  | "str.lstrip" => some (strStripF 1, true)
+  | "str.rstrip" => some (strStripF 2, true)
+  | "str.replace" => some (strReplaceF, true)
+  | "str.join" => some (strJoinF, true)
+  | "str.splitlines" => some (strSplitlinesF, true)
+  | "str.capitalize" => some (preserveF capitalizeStr, true)
+  | "str.split" => some (splitF (ps.headD 1000000), true)
+  | "dict.items" => some (itemsF, true)
+  | "dict.keys" => some (charsF, true)
+  | "dict.values" => some (dictValuesF, true)
+  | "dict.get" => some (dictGetF, true)
   | "safe" => some (safeF, false)
   | "tojson" => some (tojsonF, false)
   | _ => Option.none
@@ -764,6 +931,10 @@ inductive Class where
   | normal
   /-- applies another filter to every item -/
   | mapped
+  /-- returns an argument, or a piece of a string argument that inherits its bit -/
+  | pieces
+  /-- every string leaf of the result, text and bit, is a string leaf (or map key) of an argument -/
+  | select
   /-- explicit safe marking or documented to return markup: outside the fragment -/
   | markup
   /-- not compiled into the harness (cargo feature off) — class from reading only -/
@@ -773,39 +944,65 @@ inductive Class where
 def classOf : String → Option Class
   | "escape" | "e" | "upper" | "lower" | "capitalize" | "title" | "trim" | "reverse" | "indent"
   | "replace" | "join" | "format" | "truncate" | "split" | "lines" | "first" | "last"
-  | "default" | "d" | "string" | "length" | "count" | "list" => some .modelled
-  | "attr" | "batch" | "slice" | "sort" | "unique" | "min" | "max" | "select" | "reject"
-  | "selectattr" | "rejectattr" | "groupby" | "dictsort" | "items" | "chain" | "zip"
-  | "pluralize" | "cycler" | "joiner" | "dict" | "namespace" | "range" => some .forward
+  | "default" | "d" | "string" | "length" | "count" | "list" | "items"
+  | "str.upper" | "str.lower" | "str.title" | "str.strip" | "str.lstrip" | "str.rstrip" | "str.replace"
+  | "str.join" | "str.splitlines" | "str.capitalize" | "str.split"
+  | "dict.items" | "dict.keys" | "dict.values" | "dict.get"
+  | "attr" | "batch" | "sort" | "unique" | "min" | "max" | "select" | "reject" | "dictsort" => some .modelled
+  | "slice" | "selectattr" | "rejectattr" | "groupby" | "chain" | "zip" | "cycler" | "namespace" => some .select
+  | "pluralize" | "joiner" | "range" | "dict" => some .forward
   | "abs" | "bool" | "float" | "int" | "round" | "sum" | "pprint" | "urlencode" | "striptags"
-  | "filesizeformat" | "debug" => some .normal
+  | "filesizeformat" | "debug" | "wordcount" | "wordwrap" | "dateformat" | "datetimeformat" | "timeformat"
+  | "now" | "randrange"
+  | "str.islower" | "str.isupper" | "str.isspace" | "str.isdigit" | "str.isnumeric" | "str.isalnum"
+  | "str.isalpha" | "str.isascii" | "str.count" | "str.find" | "str.rfind" | "str.format"
+  | "str.startswith" | "str.endswith" | "list.count" => some .normal
   | "map" => some .mapped
-  | "safe" | "tojson" => some .markup
-  | "random" => some (.unbuilt "pieces")
-  | "lipsum" => some (.unbuilt "markup")
-  | "wordcount" | "wordwrap" | "dateformat" | "datetimeformat" | "timeformat" | "now" | "randrange" =>
-    some (.unbuilt "normal")
+  | "random" => some .pieces
+  | "safe" | "tojson" | "lipsum" => some .markup
   | _ => Option.none
 
 /-- program points that construct a `Safe` string and where the model accounts for them -/
 def modelledSafeSites : List (String × String) := [
-  ("minijinja/src/value/mod.rs::from_safe_string", "the constructor itself"),
-  ("minijinja/src/output.rs::end_capture", "Step.endCapture / capturedValue"),
-  ("minijinja/src/vm/macro_object.rs::call", "Step.macroReturn / capturedValue"),
-  ("minijinja/src/value/argtypes.rs::preserve_safety", "StrIn.preserve / preserveF"),
-  ("minijinja/src/filters.rs::safe", "safeF (outside the fragment)"),
-  ("minijinja/src/filters.rs::escape", "escapeF"),
-  ("minijinja/src/filters.rs::replace", "replaceF"),
-  ("minijinja/src/filters.rs::reverse", "reverseF"),
-  ("minijinja/src/filters.rs::join_safe", "joinF (both from_safe_string calls follow the nested fn join_safe)"),
-  ("minijinja/src/filters.rs::split", "splitF / piecesF"),
-  ("minijinja/src/filters.rs::lines", "piecesF linesOf"),
-  ("minijinja/src/filters.rs::last", "lastF"),
-  ("minijinja/src/filters.rs::tojson", "tojsonF (outside the fragment)"),
-  ("minijinja/src/filters.rs::format", "formatF"),
-  ("minijinja-contrib/src/filters/mod.rs::truncate", "truncateF"),
-  ("minijinja-contrib/src/filters/mod.rs::random", "one element of a safe string keeps the bit: piecesF (feature `rand`, not built)"),
-  ("minijinja-contrib/src/globals.rs::lipsum", "`html=true` is documented to return markup (feature `rand`, not built)")]
+  ("minijinja/src/value/mod.rs::from_safe_string::markx1", "the constructor itself"),
+  ("minijinja/src/output.rs::end_capture::markx1", "Step.endCapture / capturedValue"),
+  ("minijinja/src/vm/macro_object.rs::call::markx1", "Step.macroReturn / capturedValue"),
+  ("minijinja/src/value/argtypes.rs::preserve_safety::markx1", "StrIn.preserve / preserveF"),
+  ("minijinja/src/filters.rs::upper::preservex1", "preserveF (mapChars upperC)"),
+  ("minijinja/src/filters.rs::lower::preservex1", "preserveF (mapChars lowerC)"),
+  ("minijinja/src/filters.rs::capitalize::preservex1", "preserveF capitalizeStr (also reached from pycompat str.capitalize)"),
+  ("minijinja/src/filters.rs::trim::preservex1", "trimF"),
+  ("minijinja/src/filters.rs::strip_trailing_newline::preservex1", "indent (the call follows the nested fn): preserveF indentStr"),
+  ("minijinja/src/filters.rs::safe::markx1", "safeF (outside the fragment)"),
+  ("minijinja/src/filters.rs::escape::markx1", "escapeF"),
+  ("minijinja/src/filters.rs::replace::markx1", "replaceF"),
+  ("minijinja/src/filters.rs::reverse::markx1", "reverseF"),
+  ("minijinja/src/filters.rs::join_safe::markx2", "joinF (both from_safe_string calls follow the nested fn join_safe)"),
+  ("minijinja/src/filters.rs::split::markx1", "splitF / piecesF (also reached from pycompat str.split)"),
+  ("minijinja/src/filters.rs::lines::markx1", "piecesF linesOf"),
+  ("minijinja/src/filters.rs::last::markx1", "lastF"),
+  ("minijinja/src/filters.rs::tojson::markx1", "tojsonF (outside the fragment)"),
+  ("minijinja/src/filters.rs::format::markx1", "formatF"),
+  ("minijinja-contrib/src/filters/mod.rs::truncate::markx1", "truncateF"),
+  ("minijinja-contrib/src/filters/mod.rs::random::markx1", "one element of a safe string keeps the bit: class pieces"),
+  ("minijinja-contrib/src/globals.rs::lipsum::markx1", "`html=true` is documented to return markup: class markup")]
+
+/-- program points that read the `Safe` bit and where the model accounts for them -/
+def modelledReaderSites : List (String × String) := [
+  ("minijinja/src/value/mod.rs::is_safe::readx1", "the accessor itself"),
+  ("minijinja/src/utils.rs::write_escaped::readx1", "writeEscaped"),
+  ("minijinja/src/value/argtypes.rs::from_value::readx1", "StrIn.ofV"),
+  ("minijinja/src/tests.rs::is_safe::readx1", "the `safe`/`escaped` test: returns a boolean"),
+  ("minijinja/src/filters.rs::escape::readx1", "escapeF"),
+  ("minijinja/src/filters.rs::replace::readx3", "replaceF"),
+  ("minijinja/src/filters.rs::reverse::readx1", "reverseF"),
+  ("minijinja/src/filters.rs::join_safe::readx2", "joinF / joinSafe / isSafeV"),
+  ("minijinja/src/filters.rs::split::readx1", "splitF / piecesF"),
+  ("minijinja/src/filters.rs::lines::readx1", "piecesF linesOf"),
+  ("minijinja/src/filters.rs::last::readx1", "lastF"),
+  ("minijinja/src/filters.rs::format::readx2", "formatF"),
+  ("minijinja-contrib/src/filters/mod.rs::truncate::readx4", "truncateF"),
+  ("minijinja-contrib/src/filters/mod.rs::random::readx1", "class pieces")]
 
 /-! ## the machine: registers, capture stack, output -/
 
